@@ -428,6 +428,12 @@ class LayoutHandler(LayoutManager):
         self._layouts = dict(layoutObjects)
         self.nLayouts = len(self._layouts)
 
+        # A process which is only here for plotting purposes has no points in any
+        # layout (a process whose own blocks are empty must still take part in
+        # the communication of the processes which it shares a communicator with)
+        self._plot_only = all(l.max_block_size == 0
+                              for (_, l) in layoutObjects)
+
         # Initialise the buffer size before the loop
         self._buffer_size = layoutObjects[0][1].size
 
@@ -514,7 +520,7 @@ class LayoutHandler(LayoutManager):
 
         """
         # If this thread is only here for plotting purposes then ignore the command
-        if (self._buffer_size == 0):
+        if (self._plot_only):
             return
 
         # Verify that the input makes sense
@@ -1036,6 +1042,7 @@ class LayoutSwapper(LayoutManager):
         # is allocated
         buffSize = [x.bufferSize for x in self._managers]
         self._buffer_size = max(buffSize)
+        self._plot_only = all(x._plot_only for x in self._managers)
 
         # Create a dictionary to link layouts to their Handlers
         self._handlers = dict()
@@ -1251,7 +1258,7 @@ class LayoutSwapper(LayoutManager):
 
         """
         # If this thread is only here for plotting purposes then ignore the command
-        if (self._buffer_size == 0):
+        if (self._plot_only):
             return
 
         # Verify that the input makes sense
